@@ -14,8 +14,10 @@ import (
 	"fmt"
 	"go/ast"
 	"go/constant"
+	"go/printer"
 	"go/token"
 	"go/types"
+	"io"
 	"sort"
 	"strings"
 	"sync"
@@ -621,3 +623,5 @@ func shortFuncName(fn *types.Func) string {
 	}
 	return pk + name
 }
+
+func printerFprint(w io.Writer, fset *token.FileSet, n ast.Node) { printer.Fprint(w, fset, n) }
